@@ -18,7 +18,7 @@ const header = "From GL Require Import Common.Bytes Table.TImpl Table.TSpec Tabl
 const defaultMai = 67108864
 
 type Cmp struct {
-	Kind string `json:"kind"` // default lt gt mod const bits failat
+	Kind string `json:"kind"` // default nil lt gt lt_truthy gt_truthy mod const bits failat
 	M    int64  `json:"m,omitempty"`
 	B    bool   `json:"b,omitempty"`
 	Bits []bool `json:"bits,omitempty"`
@@ -26,8 +26,9 @@ type Cmp struct {
 }
 
 type Step struct {
-	Op  string `json:"op"` // ins2 ins3 rem1 rem2 assign concat unpack getn maxn len read sort
+	Op  string `json:"op"` // ins2 ins3 insbad rem1 rem2 assign assignk concat unpack getn maxn len read sort
 	V   *tv.V  `json:"v,omitempty"`
+	K   *tv.V  `json:"k,omitempty"`
 	I   *int64 `json:"i,omitempty"`
 	J   *int64 `json:"j,omitempty"`
 	Sep string `json:"sep,omitempty"` // hex
@@ -44,6 +45,8 @@ function h_len(t) return #t end
 function h_new() return {} end
 function c_lt(a,b) return a < b end
 function c_gt(a,b) return a > b end
+function c_lt_truthy(a,b) if a < b then return 0 else return nil end end
+function c_gt_truthy(a,b) if a > b then return "yes" else return false end end
 function c_mod(m) return function(a,b) return a % m < b % m end end
 `
 
@@ -149,9 +152,9 @@ func optZ(p *int64) string {
 
 func (c *Cmp) coq() string {
 	switch c.Kind {
-	case "lt":
+	case "lt", "lt_truthy":
 		return "CLt"
-	case "gt":
+	case "gt", "gt_truthy":
 		return "CGt"
 	case "mod":
 		return "(CMod " + lib.CoqZ(c.M) + ")"
@@ -212,18 +215,31 @@ func (r *runner) exec(s *Step) {
 		} else {
 			res, err = r.callT("remove", t, lua.LNumber(*s.I))
 		}
-		v := tv.Nil()
+		o := "None"
 		if err != nil || len(res) > 1 {
 			r.failf("table.remove: err=%v results=%d", err, len(res))
 		} else if len(res) == 1 {
-			v = r.of(res[0])
-		}
-		obs = v
-		if s.Op == "rem1" {
-			coq = "LRem1 " + v.CoqVal()
+			v := r.of(res[0])
+			obs = v
+			o = "(Some " + v.CoqVal() + ")"
 		} else {
-			coq = fmt.Sprintf("LRem2 %s %s", lib.CoqZ(*s.I), v.CoqVal())
+			obs = "no value"
 		}
+		if s.Op == "rem1" {
+			coq = "LRem1 " + o
+		} else {
+			coq = fmt.Sprintf("LRem2 %s %s", lib.CoqZ(*s.I), o)
+		}
+		r.nmut++
+	case "insbad":
+		_, err := r.callT("insert", t, lua.LNumber(1), lua.LNumber(2), lua.LNumber(3))
+		obs = err != nil
+		coq = "LInsBad " + lib.CoqBool(err != nil)
+	case "assignk":
+		if _, err := r.callG("h_set", t, r.pool.L(*s.K), r.pool.L(*s.V)); err != nil {
+			r.failf("t[k]=v raised: %v", err)
+		}
+		coq = fmt.Sprintf("LAssignK %s %s", s.K.CoqKey(), s.V.CoqVal())
 		r.nmut++
 	case "assign":
 		if _, err := r.callG("h_set", t, lua.LNumber(*s.I), r.pool.L(*s.V)); err != nil {
@@ -280,9 +296,16 @@ func (r *runner) exec(s *Step) {
 		coq = "LGetn " + lib.CoqZ(n)
 	case "maxn":
 		res, err := r.callT("maxn", t)
-		n := r.num1(res, err, "maxn")
-		obs = n
-		coq = "LMaxn " + lib.CoqZ(n)
+		k := tv.Int(0)
+		if err != nil || len(res) != 1 {
+			r.failf("maxn: err=%v results=%d", err, len(res))
+		} else if n, ok := res[0].(lua.LNumber); ok && float64(n) == float64(n) {
+			k = tv.Num(float64(n))
+		} else {
+			r.failf("maxn: not a number")
+		}
+		obs = k
+		coq = "LMaxn " + k.CoqKey()
 	case "len":
 		n := r.length()
 		obs = n
@@ -307,6 +330,10 @@ func (r *runner) exec(s *Step) {
 			inner = r.L.GetGlobal("c_lt")
 		case "gt":
 			inner = r.L.GetGlobal("c_gt")
+		case "lt_truthy":
+			inner = r.L.GetGlobal("c_lt_truthy")
+		case "gt_truthy":
+			inner = r.L.GetGlobal("c_gt_truthy")
 		case "mod":
 			res, err := r.callG("c_mod", lua.LNumber(c.M))
 			if err != nil {
@@ -345,6 +372,8 @@ func (r *runner) exec(s *Step) {
 		var err error
 		if c.Kind == "default" {
 			_, err = r.callT("sort", t)
+		} else if c.Kind == "nil" {
+			_, err = r.callT("sort", t, lua.LNil)
 		} else {
 			_, err = r.callT("sort", t, rec)
 		}
